@@ -140,6 +140,67 @@ def run_case(cid: str, eq, ctrl, params, start, steps: int, limit: float, guard_
     return rec
 
 
+def multi_case(cid: str, rng: random.Random) -> dict:
+    """multi_run_ode with different budgets for test and training states, two collectors (a recorder and a
+    ResultsLog), judged against direct run_ode / j_from_ode / t_from_ode calls."""
+    import io
+    from moptipy.utils.strings import float_to_str
+    from moptipyapps.dynamic_control import ode
+    from moptipyapps.dynamic_control.results_log import ResultsLog
+    sd = rng.choice([2, 3])
+    cd = rng.choice([1, 1, 2])
+    a = [[rng.uniform(-0.6, 0.2) for _ in range(sd)] for _ in range(sd)]
+
+    def eq(state, _t, control, out, a=a, sd=sd):
+        for i in range(sd):
+            acc = 0.0
+            for j in range(sd):
+                acc += a[i][j] * state[j]
+            out[i] = acc + control[i % len(control)]
+
+    def ctrl(state, t, params, dest, cd=cd):
+        for i in range(cd):
+            dest[i] = params[i] * state[i % len(state)] + 0.01 * t
+    params = np.array([rng.uniform(-0.5, 0.5) for _ in range(cd)])
+    tests = [np.array([rng.uniform(-1, 1) for _ in range(sd)]) for _ in range(rng.randint(0, 3))]
+    trains = [np.array([rng.uniform(-1, 1) for _ in range(sd)]) for _ in range(rng.randint(1, 3))]
+    t_steps, r_steps = rng.sample([7, 12, 20, 33], 2)
+    t_time, r_time = rng.sample([0.5, 1.5, 2.5, 4.0], 2)
+    use, gamma = rng.choice([-1, 1, sd]), rng.choice([0.1, 0.5])
+    got = []
+    sio = io.StringIO()
+    log = ResultsLog(sd, sio)
+    with np.errstate(all="ignore"):
+        ode.multi_run_ode(tests, trains, [lambda i, o, j, t: got.append((i, o.copy(), j, t)), log.collector],
+                          eq, ctrl, params, cd, t_steps, t_time, r_steps, r_time, use, gamma)
+    text = sio.getvalue()
+    calls = []
+    rows_ok = []
+    lines = text.split("\n")
+    if lines and lines[-1] == "":
+        lines = lines[:-1]
+    for k, (idx, o, j, t) in enumerate(got):
+        sp, grp = (tests[k], "test") if k < len(tests) else (trains[min(k - len(tests), len(trains) - 1)], "train")
+        with np.errstate(all="ignore"):
+            d = ode.run_ode(sp, eq, ctrl, params, cd, t_steps if grp == "test" else r_steps,
+                            t_time if grp == "test" else r_time)
+        same = d.shape == o.shape and bool(np.array_equal(d, o))
+        # which group's budget does the delivered simulation correspond to?
+        calls.append({"index": small(int(idx)), "group": grp, "same_ode": 1 if same else 0,
+                      "same_j": 1 if same and float(ode.j_from_ode(d, sd, use, gamma)) == float(j) else 0,
+                      "same_t": 1 if same and float(ode.t_from_ode(d)) == float(t) else 0})
+        want = ";".join([float_to_str(float(j)), float_to_str(float(t)), str(len(o))]
+                        + [float_to_str(float(v)) for v in o[0][:sd]] + [float_to_str(float(v)) for v in o[-1][:sd]])
+        rows_ok.append(1 if k + 1 < len(lines) and lines[k + 1] == want else 0)
+    header = ";".join(["figureOfMerit", "totalTime", "nSteps"] + [f"start{i}" for i in range(sd)]
+                      + [f"end{i}" for i in range(sd)])
+    return {"id": cid, "kind": "multi", "ntest": len(tests), "ntrain": len(trains), "calls": calls,
+            "log": {"header_ok": 1 if lines and lines[0] == header and text.count("figureOfMerit") == 1 else 0,
+                    "nlines": len(lines), "rows_ok": rows_ok},
+            "setup": {"sd": sd, "cd": cd, "test_steps": t_steps, "train_steps": r_steps, "test_time": t_time,
+                      "train_time": r_time, "use": use, "gamma": gamma}}
+
+
 def jreal_case(cid: str, res: np.ndarray, n: int, use: int, gamma: float):
     """The figure of merit of a real simulation output, with every double handed to TLC as an exact scaled natural."""
     from moptipyapps.dynamic_control.ode import j_from_ode
@@ -276,6 +337,11 @@ def run(prop: str, tier: str, seed: int) -> int:
         cases.append(merit_case(f"merit-{k}", rng))
     rep.family("figure-of-merit-on-exact-arrays", n_m, n_m)
     rep.nontrivial += n_m
+    n_mu = {"quick": 40, "thorough": 300}[tier]
+    for k in range(n_mu):
+        cases.append(multi_case(f"multi-{k}", rng))
+    rep.family("multi-run + results log", n_mu, n_mu)
+    rep.nontrivial += n_mu
     vs = core.validate("dyn/Trace_Ode", cases, shards=14)
     core.classify(rep, vs, {c["id"]: c for c in cases}, family="recorded")
     rep.traces += len(cases)
